@@ -2,7 +2,7 @@
    from the case's arguments, the canonical observation the Rust harness
    printed for the implementation. Everything is numbers: arguments are lists
    of integers, observations are lists of integers. Definitions only. *)
-Require Import BV.Model.Base BV.Model.SrcB BV.Model.Length BV.Model.Tag BV.Model.Twos BV.Model.Int BV.Model.BitStr BV.Model.Oid BV.Model.Content BV.Model.Prog BV.Model.OctStr.
+Require Import BV.Model.Base BV.Model.SrcB BV.Model.Length BV.Model.Tag BV.Model.Twos BV.Model.Int BV.Model.BitStr BV.Model.Oid BV.Model.Content BV.Model.Prog BV.Model.OctStr BV.Model.Encode.
 Local Open Scope Z_scope.
 
 Definition zs_to_ns (l : list Z) : list N := map Z.to_N l.
@@ -203,9 +203,106 @@ Definition s_c18_fromstr (args : list (list Z)) : list Z :=
   | CErr => [1] | _ => [3]
   end.
 
+(* ---- encoder trees (C04, C05, C06) ---- *)
+Definition take_n {A} (n : nat) (l : list A) : list A * list A := (firstn n l, skipn n l).
+Fixpoint parse_enc (fuel : nat) (l : list Z) : option (enc * list Z) :=
+  match fuel with
+  | O => None
+  | S f =>
+    match l with
+    | 0 :: cl :: nm :: n :: r =>
+        let '(b, r') := take_n (Z.to_nat n) r in
+        Some (EPrim (tag_of_args (Z.to_N cl) (Z.to_N nm)) (zs_to_ns b), r')
+    | 1 :: cl :: nm :: _rep :: r =>
+        match parse_enc f r with
+        | Some (e, r') => Some (ECons (tag_of_args (Z.to_N cl) (Z.to_N nm)) e, r') | None => None end
+    | 2 :: _rep :: k :: r =>
+        (fun o : option (list enc * list Z) =>
+           match o with Some (es, r') => Some (ESeq es, r') | None => None end)
+        ((fix go (n : nat) (r : list Z) : option (list enc * list Z) :=
+           match n with
+           | O => Some ([], r)
+           | S n' => match parse_enc f r with
+                     | Some (e, r') => match go n' r' with
+                                       | Some (es, r'') => Some (e :: es, r'') | None => None end
+                     | None => None end
+           end) (Z.to_nat k) r)
+
+    | 3 :: 0 :: r => Some (EOpt None, r)
+    | 3 :: 1 :: r => match parse_enc f r with Some (e, r') => Some (EOpt (Some e), r') | None => None end
+    | 4 :: _w :: r => match parse_enc f r with Some (e, r') => Some (EChoice e, r') | None => None end
+    | 5 :: r => Some (ENothing, r)
+    | 6 :: cm :: n :: r =>
+        let '(b, r') := take_n (Z.to_nat n) r in
+        Some (ECaptured (mode_of (Z.to_N cm)) (zs_to_ns b), r')
+    | 7 :: cl :: nm :: dm :: n :: r =>
+        let '(b, r') := take_n (Z.to_nat n) r in
+        match octstr_take_from (mode_of (Z.to_N dm)) T_OCTET_STRING (zs_to_ns b) with
+        | Ok o => Some (EOctStr (tag_of_args (Z.to_N cl) (Z.to_N nm)) o, r')
+        | _ => None
+        end
+    | 8 :: cl :: nm :: n :: r =>
+        let '(b, r') := take_n (Z.to_nat n) r in
+        Some (EOctSlice (tag_of_args (Z.to_N cl) (Z.to_N nm)) (zs_to_ns b), r')
+    | 9 :: cl :: nm :: u :: n :: r =>
+        let '(b, r') := take_n (Z.to_nat n) r in
+        Some (EBitSlice (tag_of_args (Z.to_N cl) (Z.to_N nm)) (Z.to_N u) (zs_to_ns b), r')
+    | 10 :: wm :: r =>
+        match parse_enc f r with Some (e, r') => Some (EWrapped (mode_of (Z.to_N wm)) e, r') | None => None end
+    | 11 :: cl :: nm :: ty :: v :: r =>
+        Some (EPrim (tag_of_args (Z.to_N cl) (Z.to_N nm)) (enc_int (Z.to_N ty) v), r)
+    | 12 :: cl :: nm :: b :: r =>
+        Some (EPrim (tag_of_args (Z.to_N cl) (Z.to_N nm)) (Int.enc_bool (negb (b =? 0))), r)
+    | 13 :: cl :: nm :: r => Some (EPrim (tag_of_args (Z.to_N cl) (Z.to_N nm)) [], r)
+    | 15 :: cl :: nm :: u :: n :: r =>
+        let '(b, r') := take_n (Z.to_nat n) r in
+        Some (EPrim (tag_of_args (Z.to_N cl) (Z.to_N nm)) (Z.to_N u :: zs_to_ns b), r')
+    | _ => None
+    end
+  end.
+
+Definition s_c06_tree (args : list (list Z)) : list Z :=
+  let m := argm 0 args in let code := arg 1 args in
+  match parse_enc (S (length code)) code with
+  | Some (e, []) => enc_res enc_n (enc_len m e) ++ enc_res enc_bytes (enc_write m e)
+  | _ => [-7]
+  end.
+
+(* encode a typed record, then decode the produced octets with a typed program *)
+Definition s_c04_roundtrip (args : list (list Z)) : list Z :=
+  let m := argm 0 args in let code := arg 1 args in let prog := arg 2 args in
+  let dm := argm 3 args in
+  match parse_enc (S (length code)) code with
+  | Some (e, []) =>
+      match enc_write m e with
+      | Ok w => 0 :: enc_bytes w ++ run_program dm prog w
+      | _ => [3]
+      end
+  | _ => [-7]
+  end.
+
+(* DER: decode a primitive content with a typed accessor, re-encode the value *)
+Definition s_c05_leaf (args : list (list Z)) : list Z :=
+  let ty := argn 0 args in let c := argb 1 args in
+  match ty with
+  | 10%N => match prim_decode (to_bool Der) c with
+            | Ok b => 0 :: enc_bytes (Int.enc_bool b) | CErr => [1] | _ => [3] end
+  | 11%N => match prim_decode to_null c with Ok _ => [0; 0] | CErr => [1] | _ => [3] end
+  | 12%N => match prim_decode oid_from_prim c with Ok o => 0 :: enc_bytes o | CErr => [1] | _ => [3] end
+  | 14%N => match prim_decode (bit_from_prim Der) c with
+            | Ok v => 0 :: enc_bytes (bs_write v) | CErr => [1] | _ => [3] end
+  | 16%N => match prim_decode integer_from_primitive c with Ok o => 0 :: enc_bytes o | CErr => [1] | _ => [3] end
+  | 17%N => match prim_decode unsigned_int_from_primitive c with Ok o => 0 :: enc_bytes o | CErr => [1] | _ => [3] end
+  | _ => match prim_decode (int_accessor ty) c with
+         | Ok v => 0 :: enc_bytes (enc_int ty v) | CErr => [1] | _ => [3] end
+  end.
+
 Definition run_stream (sid : N) (args : list (list Z)) : list Z :=
   match sid with
-  | 201%N | 301%N | 901%N | 1001%N | 1101%N => s_prog args
+  | 201%N | 301%N | 502%N | 901%N | 1001%N | 1101%N => s_prog args
+  | 401%N => s_c04_roundtrip args
+  | 501%N => s_c05_leaf args
+  | 601%N => s_c06_tree args
   | 1002%N => [1]  (* implementation-only measurement: deep nesting on a small stack *)
   | 1201%N => s_c12_new args
   | 1202%N => s_c12_read args
